@@ -16,6 +16,7 @@ type Job struct {
 	Thorough bool   `json:"thorough,omitempty"`
 	Case     json.RawMessage `json:"case,omitempty"`
 	EmitCase bool   `json:"emit_case,omitempty"`
+	Profile  string `json:"profile,omitempty"` // "cluster-c16", "cluster-c19": the real-store lanes of proxy properties
 }
 
 func loadJob() (*Job, error) {
@@ -44,14 +45,17 @@ func TestWorker(t *testing.T) {
 	if err != nil {
 		t.Skip(err)
 	}
-	if job.Property == "C05" || job.Property == "C06" {
+	if job.Property == "C05" || job.Property == "C06" || strings.HasPrefix(job.Profile, "cluster-") {
 		var cc *ClusterCase
-		if job.Mode == "replay" {
+		switch {
+		case job.Mode == "replay":
 			cc = &ClusterCase{}
 			if err := json.Unmarshal(job.Case, cc); err != nil {
 				t.Fatal(err)
 			}
-		} else {
+		case strings.HasPrefix(job.Profile, "cluster-"):
+			cc = GenClusterF(job.Profile, job.Property, job.Seed, Tier{Thorough: job.Thorough})
+		default:
 			cc = GenCluster(job.Property, job.Seed, Tier{Thorough: job.Thorough})
 		}
 		RunCluster(t, cc, func(res *Result) {
